@@ -26,6 +26,22 @@ def put(tag,body):
     a,b=f"<!-- {tag} -->",f"<!-- /{tag} -->"
     i,j=s.index(a)+len(a),s.index(b)
     s=s[:i]+"\n"+body+s[j:]
-put('SEEDS',seeds); put('MUTANTS',mutants)
+def bounds(t):
+    if t is None: return '-'
+    parts=[]
+    for k in ('Preemptions','Stalls','MapOrders','Params','Solver'):
+        if k in t and t[k] not in (None,''): parts.append(f"{k}={json.dumps(t[k]) if isinstance(t[k],dict) else t[k]}")
+    return ', '.join(parts) or 'defaults'
+hrows=[]
+for f in sorted(glob.glob('/verif/checks/C*.json')):
+    c=json.load(open(f)); d=c.get('defaults',{})
+    for h in c['harnesses']:
+        q=h['tiers'].get('quick'); t=h['tiers'].get('thorough')
+        def eff(x):
+            if x is None: return None
+            e={k:d[k] for k in ('Preemptions','Stalls','MapOrders','Solver') if k in d}; e.update(x); return e
+        hrows.append(f"| {c['property']} | `{h['func'].replace('VerifH_','')}` | {h['pkg'].replace('go.flow.arcalot.io/engine','.')} | {bounds(eff(q))} | {bounds(eff(t))} |")
+harn="| property | harness (`VerifH_` prefix dropped) | package | quick bounds | thorough bounds |\n|---|---|---|---|---|\n"+'\n'.join(hrows)+"\n"
+put('SEEDS',seeds); put('MUTANTS',mutants); put('HARNESSES',harn)
 open(p,'w').write(s)
 print(len(rows),'seeds',len(mrows),'mutants')
